@@ -13,6 +13,7 @@ TSpec == TInit /\ [][TNext]_<<l, seen>>
 Ctx == (<<88, 49>> :> [nominal |-> <<1095, 1077, 1083, 1086, 1074, 1077, 1082>>, manual |-> <<>>])
     @@ (<<88, 50>> :> [nominal |-> <<>>, manual |-> <<>>])
     @@ (<<88, 51>> :> [nominal |-> <<116, 51>>, manual |-> ({25, 32} :> <<1083, 1102, 1076, 1103, 1084>>)])
+    @@ (<<88, 52>> :> [nominal |-> <<97, 98, 99, 100, 101, 102, 103, 104, 105, 233>>, manual |-> <<>>])
 
 Proj(r) == [k |-> r.kind, name |-> r.name, form |-> SetToSortSeq(r.form, <), off |-> r.off, s |-> r.s, f |-> r.f]
 TextOK(ev) ==
@@ -27,6 +28,7 @@ TextOK(ev) ==
        /\ \A i \in DOMAIN refs : /\ [s |-> ev.refs[i].rs, f |-> ev.refs[i].rf] = ResolvedRange(refs, res, i)
                                  /\ res[i] # <<>>
                                  /\ ResolutionKind(refs, i, Ctx) = "form" => res[i] = ResolutionText(refs, i, Ctx)
+  /\ ev.nrefs = Len(refs)                     \* the manager holds exactly this text's references (it is reused across texts)
   /\ ev.back = Canonical(s, refs, 1)
   /\ ToSet(ev.referals) = Referals(s)
 R2(q) == [i \in DOMAIN q |-> [s |-> q[i].s, f |-> q[i].f]]
